@@ -43,6 +43,8 @@ def _remap(x, lmap, bmap_fields=None):
                 out[k] = v
         return out
     if isinstance(x, dict):
+        if x.get("k") in ("live", "dead") and isinstance(x.get("l"), int):
+            return dict(x, l=lmap(x["l"]))          # StorageLive / StorageDead name a bare local
         return {k: _remap(v, lmap) for k, v in x.items()}
     if isinstance(x, list):
         return [_remap(v, lmap) for v in x]
@@ -156,7 +158,31 @@ def _shallow_keep(facts, cb):
     if cb.arg_count < 1 or cb.locals[1].get("name") != "self":
         return False          # an associated function without a receiver is a plain helper
     d = cb.types[cb.impl["self_ty"]].get("def")
+    if d in _bookkeeping_adts(facts):
+        return False          # a private struct that only ever lives in a local variable (`Attempts { retried, limit }`): glue
     return d not in _service_like_adts(facts)
+
+
+def _bookkeeping_adts(facts):
+    """private ADTs of the workspace that no other ADT stores in a field: values of such a type live in local variables
+    of one function (loop counters grouped into a struct, a ledger of one call) — their methods are helpers of that
+    function, not state machines known by role"""
+    cache = getattr(facts, "_bk_adts", None)
+    if cache is None:
+        cache = set()
+        for c in facts.crates.values():
+            ftys = []
+            for d, adt in c.adts.items():
+                for v in adt.get("variants", []):
+                    for fl in v.get("fields", []):
+                        ftys.append(c.types[fl["ty"]]["s"])
+            for d, adt in c.adts.items():
+                if not d.startswith(c.name) or adt.get("vis") == "pub":
+                    continue
+                if not any(d in t for t in ftys):
+                    cache.add(d)
+        facts._bk_adts = cache
+    return cache
 
 
 def _callee_of(facts, body, c, stack, policy="full"):
@@ -225,6 +251,374 @@ def _expand_sync(facts, w, stack, depth, budget, policy="full"):
         w.blocks[bb]["stmts"] = w.blocks[bb]["stmts"] + pre
         w.blocks[bb]["term"] = _goto(base, span)
         w.blocks[bb]["term"]["inl_call"] = {"fn": fn, "args": t["args"], "dest": dest, "callee": cb.def_}
+        changed = True
+    return changed
+
+
+_FN_CALLS = ("core::ops::function::FnOnce::call_once", "core::ops::function::FnMut::call_mut", "core::ops::function::Fn::call")
+
+
+def _closure_of_local(w, l, depth=0):
+    """def path of the workspace closure the local `l` holds (or refers to), found through its type or through the
+    single assignment chain that leads to the closure expression; None when it is not unique"""
+    types = w.body.types
+    ty = types[w.locals[l]["ty"]]
+    if ty.get("k") == "closure":
+        return ty.get("def")
+    if ty.get("k") == "ref" and ty.get("args") and isinstance(ty["args"][0], int) and types[ty["args"][0]].get("k") == "closure":
+        return types[ty["args"][0]].get("def")
+    if depth > 6:
+        return None
+    defs = []
+    for blk in w.blocks:
+        for s_ in blk["stmts"]:
+            if s_["k"] == "assign" and s_["lhs"]["l"] == l and not s_["lhs"]["p"]:
+                defs.append(s_["rv"])
+        t = blk["term"]
+        if t["k"] == "call" and t["dest"]["l"] == l and not t["dest"]["p"] and not t.get("inl"):
+            defs.append(None)
+    if len(defs) != 1 or defs[0] is None:
+        return None
+    rv = defs[0]
+    if rv["k"] == "agg" and rv.get("ak") == "closure":
+        return rv.get("def")
+    src = None
+    if rv["k"] == "use":
+        src = rv["op"].get("move") or rv["op"].get("copy")
+    elif rv["k"] in ("ref", "rawptr"):
+        src = rv["place"]
+    if src is None or src["p"] not in ([], ["*"]):
+        return None
+    return _closure_of_local(w, src["l"], depth + 1)
+
+
+def _fnitem_of_local(w, l, depth=0):
+    """the function item (`{"def":..}` record of a zero-sized fn constant) the local holds on every path, else None"""
+    if depth > 6:
+        return None
+    defs = []
+    for blk in w.blocks:
+        for s_ in blk["stmts"]:
+            if s_["k"] == "assign" and s_["lhs"]["l"] == l and not s_["lhs"]["p"]:
+                defs.append(s_["rv"])
+        t = blk["term"]
+        if t["k"] == "call" and t["dest"]["l"] == l and not t["dest"]["p"] and not t.get("inl"):
+            defs.append(None)
+    if len(defs) != 1 or defs[0] is None or defs[0]["k"] != "use":
+        return None
+    op = defs[0]["op"]
+    if "const" in op:
+        return op["const"].get("fn")
+    src = op.get("move") or op.get("copy")
+    if src is None or src["p"]:
+        return None
+    return _fnitem_of_local(w, src["l"], depth + 1)
+
+
+def _expand_fnitem_calls(facts, w):
+    """`f(a, b)` where `f` is a function item handed down as a generic `impl FnOnce(..)` (after the helper that takes it
+    was inlined): the indirect call becomes a direct call of that function, which the next pass may inline"""
+    changed = False
+    for bb in range(len(w.blocks)):
+        t = w.blocks[bb]["term"]
+        if t["k"] != "call" or t.get("inl"):
+            continue
+        f = t["func"]
+        fn = f["const"]["fn"] if "const" in f and "fn" in f["const"] else None
+        if fn is None or fn.get("def") not in _FN_CALLS or len(t["args"]) != 2 or t["dest"]["p"]:
+            continue
+        a0 = t["args"][0]
+        pl = a0.get("move") or a0.get("copy")
+        item = None
+        if "const" in a0:
+            item = a0["const"].get("fn")
+        elif pl is not None and not pl["p"]:
+            item = _fnitem_of_local(w, pl["l"])
+        if not item:
+            continue
+        cb = facts.bodies.get(item.get("resolved") or item.get("def")) or facts.bodies.get(item.get("def"))
+        if cb is None or cb.kind != "fn" or cb.crate is not w.body.crate:
+            continue
+        a1 = t["args"][1]
+        tpl = a1.get("move") or a1.get("copy")
+        if cb.arg_count > 0 and (tpl is None or tpl["p"]):
+            continue
+        t["func"] = {"const": {"ty": f["const"].get("ty"), "fn": item}}
+        t["args"] = [{"move": {"l": tpl["l"], "p": [{"f": k, "adt": "<tuple>", "t": cb.locals[k + 1]["ty"]}]}} for k in range(cb.arg_count)]
+        t["via_fn_item"] = True
+        changed = True
+    return changed
+
+
+def _inlinable_closure(facts, w, stack, budget, op):
+    """(closure body, place) when operand `op` is a local holding (or referring to) one closure of this crate that may be
+    inlined into w; else None"""
+    pl = op.get("move") or op.get("copy") if isinstance(op, dict) else None
+    if pl is None or pl["p"]:
+        return None
+    body = w.body
+    cdef = _closure_of_local(w, pl["l"])
+    cb = facts.bodies.get(cdef) if cdef else None
+    if cb is None or cb.kind != "closure" or cb.crate is not body.crate or cb.def_ in stack or cb is body:
+        return None
+    if len(cb.blocks) > MAX_BLOCKS or len(w.blocks) + len(cb.blocks) > budget:
+        return None
+    types = body.types
+    wants_ref = types[cb.locals[1]["ty"]].get("k") == "ref"
+    passes_ref = types[w.locals[pl["l"]]["ty"]].get("k") == "ref"
+    if passes_ref and not wants_ref:
+        return None
+    return cb, pl
+
+
+def _inline_closure(w, cb, a0, arg_ops, dest, target, unwind, span, fn):
+    """append the closure body cb; returns (entry block, statements that bind its parameters).  a0 = operand holding the
+    closure (by value or by reference), arg_ops = operands of its declared parameters"""
+    types = w.body.types
+    pl = a0.get("move") or a0.get("copy")
+    wants = types[cb.locals[1]["ty"]]
+    wants_ref = wants.get("k") == "ref"
+    passes_ref = types[w.locals[pl["l"]]["ty"]].get("k") == "ref"
+    ret_local = w.new_local(cb.locals[0]["ty"])
+
+    def on_return(nb):
+        if target is None:
+            nb["term"] = {"k": "unreachable", "span": span}
+            return
+        nb["stmts"] = nb["stmts"] + [{"k": "assign", "lhs": dest, "rv": {"k": "use", "op": {"move": {"l": ret_local, "p": []}}}, "span": span}]
+        nb["term"] = _goto(target, span)
+        nb["term"]["inl_ret"] = {"fn": fn, "ret": ret_local}
+    base, lm = w.append_callee(cb, {0: ret_local}, unwind, on_return)
+    pre = []
+    if wants_ref and not passes_ref:
+        tmp = w.new_local(wants["args"][0])
+        pre.append({"k": "assign", "lhs": {"l": tmp, "p": []}, "rv": {"k": "use", "op": a0}, "span": span})
+        pre.append({"k": "assign", "lhs": {"l": lm[1], "p": []},
+                    "rv": {"k": "ref", "bk": "mut" if wants.get("mut") else "shared", "place": {"l": tmp, "p": []}}, "span": span})
+    else:
+        pre.append({"k": "assign", "lhs": {"l": lm[1], "p": []}, "rv": {"k": "use", "op": a0}, "span": span})
+    for k, o in enumerate(arg_ops):
+        pre.append({"k": "assign", "lhs": {"l": lm[k + 2], "p": []}, "rv": {"k": "use", "op": o}, "span": span})
+    return base, pre
+
+
+def _expand_closure_calls(facts, w, stack, budget):
+    """inline `f()` / `f(a, b)` (FnOnce::call_once / FnMut::call_mut / Fn::call) when `f` is, on every path, one closure
+    written in this crate — typically after a closure-taking helper (`with_lock(|st| ..)`, `emit_with(|..| ..)`) has
+    itself been inlined: the closure's parameters are assigned from the argument tuple, its upvars are read through the
+    closure value"""
+    changed = False
+    for bb in range(len(w.blocks)):
+        t = w.blocks[bb]["term"]
+        if t["k"] != "call" or t.get("inl"):
+            continue
+        f = t["func"]
+        fn = f["const"]["fn"] if "const" in f and "fn" in f["const"] else None
+        if fn is None or fn.get("def") not in _FN_CALLS or len(t["args"]) != 2 or t["dest"]["p"]:
+            continue
+        r = _inlinable_closure(facts, w, stack, budget, t["args"][0])
+        if r is None:
+            continue
+        cb, pl = r
+        a1 = t["args"][1]
+        tpl = a1.get("move") or a1.get("copy")
+        if cb.arg_count > 1 and (tpl is None or tpl["p"]):
+            continue
+        span = t["span"]
+        arg_ops = [{"move": {"l": tpl["l"], "p": [{"f": k - 2, "adt": "<tuple>", "t": cb.locals[k]["ty"]}]}} for k in range(2, cb.arg_count + 1)]
+        base, pre = _inline_closure(w, cb, t["args"][0], arg_ops, t["dest"], t["target"], t["unwind"], span, fn)
+        w.blocks[bb]["stmts"] = w.blocks[bb]["stmts"] + pre
+        w.blocks[bb]["term"] = _goto(base, span)
+        w.blocks[bb]["term"]["inl_call"] = {"fn": fn, "args": t["args"], "dest": t["dest"], "callee": cb.def_}
+        changed = True
+    return changed
+
+
+# Option / Result combinators: what each variant's arm computes.
+#   ("payload",) the variant's payload | ("arg", i) the i-th argument | ("call", i, with_payload) the function passed as
+#   i-th argument (a closure of this crate, or a tuple-variant / tuple-struct constructor) applied to the payload / to
+#   nothing | ("const", "true" | "false") | ("wrap", V, action) V(<action>) of the result type | ("unit", V)
+_OPT, _RES = "core::option::Option::<T>::", "core::result::Result::<T, E>::"
+_COMBINATORS = {
+    _OPT + "unwrap_or": {"Some": ("payload",), "None": ("arg", 1)},
+    _OPT + "unwrap_or_else": {"Some": ("payload",), "None": ("call", 1, False)},
+    _OPT + "map_or": {"Some": ("call", 2, True), "None": ("arg", 1)},
+    _OPT + "map_or_else": {"Some": ("call", 2, True), "None": ("call", 1, False)},
+    _OPT + "is_some_and": {"Some": ("call", 1, True), "None": ("const", "false")},
+    _OPT + "is_none_or": {"Some": ("call", 1, True), "None": ("const", "true")},
+    _OPT + "map": {"Some": ("wrap", "Some", ("call", 1, True)), "None": ("unit", "None")},
+    _OPT + "and_then": {"Some": ("call", 1, True), "None": ("unit", "None")},
+    _OPT + "or_else": {"Some": ("wrap", "Some", ("payload",)), "None": ("call", 1, False)},
+    _OPT + "ok_or_else": {"Some": ("wrap", "Ok", ("payload",)), "None": ("wrap", "Err", ("call", 1, False))},
+    _RES + "unwrap_or": {"Ok": ("payload",), "Err": ("arg", 1)},
+    _RES + "unwrap_or_else": {"Ok": ("payload",), "Err": ("call", 1, True)},
+    _RES + "map_or": {"Ok": ("call", 2, True), "Err": ("arg", 1)},
+    _RES + "map_or_else": {"Ok": ("call", 2, True), "Err": ("call", 1, True)},
+    _RES + "is_ok_and": {"Ok": ("call", 1, True), "Err": ("const", "false")},
+    _RES + "is_err_and": {"Ok": ("const", "false"), "Err": ("call", 1, True)},
+    _RES + "map": {"Ok": ("wrap", "Ok", ("call", 1, True)), "Err": ("wrap", "Err", ("payload",))},
+    _RES + "map_err": {"Ok": ("wrap", "Ok", ("payload",)), "Err": ("wrap", "Err", ("call", 1, True))},
+    _RES + "and_then": {"Ok": ("call", 1, True), "Err": ("wrap", "Err", ("payload",))},
+    _RES + "or_else": {"Ok": ("wrap", "Ok", ("payload",)), "Err": ("call", 1, True)},
+}
+_VARIANTS = {"core::option::Option": [("None", "0", None), ("Some", "1", 0)], "core::result::Result": [("Ok", "0", 0), ("Err", "1", 1)]}
+_WRAP = {"Some": ("core::option::Option", 1, 0), "None": ("core::option::Option", 0, None),
+         "Ok": ("core::result::Result", 0, 0), "Err": ("core::result::Result", 1, 1)}
+
+
+def _ctor_of(facts, item):
+    """(adt def, variant name, variant index) when the function item is a tuple-variant / tuple-struct constructor with
+    one field"""
+    d = item.get("def") or ""
+    for adt_def, vname in ((d.rsplit("::", 1) + [None])[:2],) if "::" in d else ():
+        adt = facts.adt(adt_def)
+        if adt is None:
+            continue
+        for vi, v in enumerate(adt.get("variants", [])):
+            if v.get("name") == vname and len(v.get("fields", [])) == 1:
+                return (adt_def, vname, vi, v["fields"][0].get("name", "0"))
+    adt = facts.adt(d)
+    if adt is not None and len(adt.get("variants", [])) == 1 and len(adt["variants"][0].get("fields", [])) == 1:
+        v = adt["variants"][0]
+        return (d, v.get("name"), 0, v["fields"][0].get("name", "0"))
+    return None
+
+
+def _actions(act):
+    yield act
+    if act[0] == "wrap":
+        for x in _actions(act[2]):
+            yield x
+
+
+def _expand_combinators(facts, w, stack, budget):
+    """`opt.map_or(d, |v| ..)`, `res.unwrap_or_else(|e| ..)`, `res.map_err(Error::Inner)`, ...  whose function arguments
+    are closures written in this crate or plain constructors are replaced by the `match` they stand for (closure
+    bodies inlined in the arms), so that rules see the same control flow whichever way the decision is spelled"""
+    body = w.body
+    types = body.types
+    changed = False
+    for bb in range(len(w.blocks)):
+        t = w.blocks[bb]["term"]
+        if t["k"] != "call" or t.get("inl") or t["dest"]["p"] or t["target"] is None:
+            continue
+        f = t["func"]
+        fn = f["const"]["fn"] if "const" in f and "fn" in f["const"] else None
+        spec = _COMBINATORS.get(fn.get("def")) if fn else None
+        if spec is None:
+            continue
+        rpl = t["args"][0].get("move") or t["args"][0].get("copy")
+        if rpl is None or rpl["p"]:
+            continue
+        rty_i = w.locals[rpl["l"]]["ty"]
+        rty = types[rty_i]
+        vs = _VARIANTS.get(rty.get("def"))
+        if vs is None or rty.get("k") != "adt":
+            continue
+        dty = types[w.locals[t["dest"]["l"]]["ty"]]
+        fns = {}          # arg index -> ("closure", body) | ("ctor", info)
+        ok = True
+        extra = 0
+        for (vn, _val, _pi) in vs:
+            for act in _actions(spec[vn]):
+                if act[0] == "wrap" and (dty.get("k") != "adt" or dty.get("def") != _WRAP[act[1]][0]):
+                    ok = False
+                if act[0] == "unit" and (dty.get("k") != "adt" or dty.get("def") != _WRAP[act[1]][0]):
+                    ok = False
+                if act[0] != "call" or act[1] in fns:
+                    continue
+                if act[1] >= len(t["args"]):
+                    ok = False
+                    break
+                a = t["args"][act[1]]
+                item = a["const"].get("fn") if "const" in a else None
+                if item is None and (a.get("move") or a.get("copy")) and not (a.get("move") or a.get("copy"))["p"]:
+                    item = _fnitem_of_local(w, (a.get("move") or a.get("copy"))["l"])
+                if item is not None:
+                    ct = _ctor_of(facts, item)
+                    if ct is None or not act[2]:
+                        ok = False
+                        break
+                    fns[act[1]] = ("ctor", ct)
+                    continue
+                r = _inlinable_closure(facts, w, stack, budget - extra, a)
+                if r is None or r[0].arg_count != (2 if act[2] else 1):
+                    ok = False
+                    break
+                extra += len(r[0].blocks)
+                fns[act[1]] = ("closure", r[0])
+        if not ok:
+            continue
+        span = t["span"]
+        isize = next((i for i, ty_ in enumerate(types) if ty_.get("s") == "isize"), rty_i)
+        disc = w.new_local(isize)
+        dest, target, unwind = t["dest"], t["target"], t["unwind"]
+        frm = w.blocks[bb].get("from")
+
+        def new_block():
+            nb = {"stmts": [], "term": _goto(target, span)}
+            if frm is not None:
+                nb["from"] = frm
+            w.blocks.append(nb)
+            return len(w.blocks) - 1
+
+        def emit(cur, act, out_place, out_ty, payload_op):
+            """append code computing `act` into out_place, starting in block cur; returns the block left open"""
+            nb = w.blocks[cur]
+            if act[0] == "payload":
+                nb["stmts"].append({"k": "assign", "lhs": out_place, "rv": {"k": "use", "op": payload_op}, "span": span})
+                return cur
+            if act[0] == "arg":
+                nb["stmts"].append({"k": "assign", "lhs": out_place, "rv": {"k": "use", "op": t["args"][act[1]]}, "span": span})
+                return cur
+            if act[0] == "const":
+                bty = next((i for i, ty_ in enumerate(types) if ty_.get("s") == "bool"), None)
+                nb["stmts"].append({"k": "assign", "lhs": out_place, "rv": {"k": "use", "op": {"const": {"ty": bty, "disp": act[1], "bits": "1" if act[1] == "true" else "0"}}}, "span": span})
+                return cur
+            if act[0] == "unit":
+                adt_def, vi, _pi = _WRAP[act[1]]
+                nb["stmts"].append({"k": "assign", "lhs": out_place, "rv": {"k": "agg", "ak": "adt", "def": adt_def, "variant": act[1], "vi": vi, "fields": [], "ops": []}, "span": span})
+                return cur
+            if act[0] == "wrap":
+                adt_def, vi, pi = _WRAP[act[1]]
+                ity = types[out_ty]["args"][pi]
+                tmp = w.new_local(ity)
+                cur = emit(cur, act[2], {"l": tmp, "p": []}, ity, payload_op)
+                w.blocks[cur]["stmts"].append({"k": "assign", "lhs": out_place, "rv": {"k": "agg", "ak": "adt", "def": adt_def, "variant": act[1], "vi": vi,
+                                                                                      "fields": ["0"], "ops": [{"move": {"l": tmp, "p": []}}]}, "span": span})
+                return cur
+            kind, what = fns[act[1]]
+            if kind == "ctor":
+                adt_def, vname, vi, fname = what
+                nb["stmts"].append({"k": "assign", "lhs": out_place, "rv": {"k": "agg", "ak": "adt", "def": adt_def, "variant": vname, "vi": vi,
+                                                                          "fields": [fname], "ops": [payload_op]}, "span": span})
+                return cur
+            cont = new_block()
+            base, pre = _inline_closure(w, what, t["args"][act[1]], [payload_op] if act[2] else [], out_place, cont, unwind, span, fn)
+            nb["stmts"] += pre
+            nb["term"] = _goto(base, span)
+            nb["term"]["inl_call"] = {"fn": fn, "args": t["args"], "dest": dest, "callee": what.def_}
+            return cont
+        arms = {}
+        dest_ty = w.locals[dest["l"]]["ty"]
+        for (vn, val, pi) in vs:
+            act = spec[vn]
+            idx = new_block()
+            arms[vn] = idx
+            payload_op = None
+            needs_payload = any(a_[0] == "payload" or (a_[0] == "call" and a_[2]) for a_ in _actions(act))
+            if pi is not None and needs_payload:
+                pty = rty["args"][pi]
+                pv = w.new_local(pty)
+                w.blocks[idx]["stmts"].append({"k": "assign", "lhs": {"l": pv, "p": []}, "rv": {"k": "use", "op": {"move": {
+                    "l": rpl["l"], "p": [{"downcast": int(val), "v": vn}, {"f": 0, "n": "0", "adt": rty["def"], "t": pty}]}}}, "span": span})
+                payload_op = {"move": {"l": pv, "p": []}}
+            emit(idx, act, dest, dest_ty, payload_op)
+        w.blocks[bb]["stmts"] = w.blocks[bb]["stmts"] + [{"k": "assign", "lhs": {"l": disc, "p": []}, "rv": {
+            "k": "discr", "place": {"l": rpl["l"], "p": []}, "ty": rty_i, "variants": [[vn, val] for (vn, val, _p) in vs]}, "span": span}]
+        first, second = vs[0], vs[1]
+        w.blocks[bb]["term"] = {"k": "switch", "discr": {"move": {"l": disc, "p": []}}, "targets": [[first[1], arms[first[0]]]],
+                                "otherwise": arms[second[0]], "span": span, "inl": "combinator:" + fn["name"]}
         changed = True
     return changed
 
@@ -342,6 +736,175 @@ def _expand_async(facts, w, stack, budget, policy="full"):
         changed = True
         break          # block indices of the other awaits are still valid, but re-discover to stay simple
     return changed
+
+
+def _places(x, out):
+    if _is_place(x):
+        out.append(x)
+        return
+    if isinstance(x, dict):
+        for k, v in x.items():
+            if k not in ("inl_call", "inl_ret"):        # markers of the inliner: a record of the replaced call, not code
+                _places(v, out)
+    elif isinstance(x, list):
+        for v in x:
+            _places(v, out)
+
+
+def _sroa(facts, w):
+    """scalar replacement of local bookkeeping structs: a private struct that only ever lives in local variables
+    (`let mut attempts = Attempts { retried: 0, limit }`) and is only touched field by field — directly or through the
+    `&self` / `&mut self` of its inlined methods — is replaced by one local per field, so that `attempts.retried += 1`
+    reads like `retried += 1` to every rule"""
+    body = w.body
+    types = body.types
+    bk = _bookkeeping_adts(facts)
+    cand = {}
+    for l, loc in enumerate(w.locals):
+        ty = types[loc["ty"]]
+        if ty.get("k") == "adt" and ty.get("def") in bk and l > body.arg_count:
+            adt = facts.adt(ty["def"])
+            if adt is not None and len(adt.get("variants", [])) == 1 and adt["variants"][0]["fields"]:
+                cand[l] = (ty["def"], adt["variants"][0]["fields"])
+    if not cand:
+        return False
+    defs = {}
+    for blk in w.blocks:
+        if blk.get("dead"):
+            continue
+        for s_ in blk["stmts"]:
+            if s_["k"] == "assign" and not s_["lhs"]["p"]:
+                defs.setdefault(s_["lhs"]["l"], []).append(s_)
+        t = blk["term"]
+        if t["k"] == "call" and not t["dest"]["p"]:
+            defs.setdefault(t["dest"]["l"], []).append(None)
+    # aliases: R = &X | &mut X | &(*R') | move R' | copy R'   (each with exactly one definition); alias_of[R] = X
+    alias_of = {}
+    grew = True
+    while grew:
+        grew = False
+        for r, ds in defs.items():
+            if r in alias_of or r in cand or len(ds) != 1 or ds[0] is None:
+                continue
+            rv = ds[0]["rv"]
+            src = None
+            if rv["k"] in ("ref", "rawptr"):
+                pl = rv["place"]
+                if pl["l"] in cand and not pl["p"]:
+                    src = pl["l"]
+                elif pl["l"] in alias_of and pl["p"] == ["*"]:
+                    src = alias_of[pl["l"]]
+            elif rv["k"] == "use":
+                pl = rv["op"].get("move") or rv["op"].get("copy")
+                if pl is not None and not pl["p"] and pl["l"] in alias_of:
+                    src = alias_of[pl["l"]]
+            if src is not None:
+                alias_of[r] = src
+                grew = True
+    bad = set()
+    links = []          # (X, Y) for X = move Y between candidates
+
+    def judge(pl):
+        if pl["l"] in cand and not (pl["p"] and isinstance(pl["p"][0], dict) and "f" in pl["p"][0]):
+            bad.add(pl["l"])
+        if pl["l"] in alias_of and not (len(pl["p"]) >= 2 and pl["p"][0] == "*" and isinstance(pl["p"][1], dict) and "f" in pl["p"][1]):
+            bad.add(alias_of[pl["l"]])
+    for blk in w.blocks:
+        if blk.get("dead"):
+            continue
+        for s_ in blk["stmts"]:
+            if s_["k"] in ("live", "dead"):
+                continue
+            pls = []
+            if s_["k"] == "assign":
+                lhs, rv = s_["lhs"], s_["rv"]
+                if lhs["l"] in cand and not lhs["p"]:
+                    adt_def, fields = cand[lhs["l"]]
+                    if rv["k"] == "agg" and rv.get("ak") == "adt" and rv.get("def") == adt_def and len(rv["ops"]) == len(fields):
+                        _places(rv, pls)
+                    elif rv["k"] == "use" and (rv["op"].get("move") or rv["op"].get("copy") or {}).get("l") in cand and \
+                            not (rv["op"].get("move") or rv["op"].get("copy"))["p"] and cand[(rv["op"].get("move") or rv["op"].get("copy"))["l"]][0] == adt_def:
+                        links.append((lhs["l"], (rv["op"].get("move") or rv["op"].get("copy"))["l"]))
+                    else:
+                        bad.add(lhs["l"])
+                        _places(rv, pls)
+                elif lhs["l"] in alias_of and not lhs["p"]:
+                    continue
+                else:
+                    _places(s_, pls)
+            else:
+                _places(s_, pls)
+            for pl in pls:
+                judge(pl)
+        pls = []
+        _places(blk["term"], pls)
+        for pl in pls:
+            judge(pl)
+    for x in list(cand):
+        if x not in defs:
+            bad.add(x)
+    grew = True
+    while grew:
+        grew = False
+        for (x, y) in links:
+            if (x in bad) != (y in bad):
+                bad |= {x, y}
+                grew = True
+    good = [x for x in cand if x not in bad]
+    if not good:
+        return False
+    fl = {}
+    for L in good:
+        name = w.locals[L].get("name")
+        fl[L] = []
+        for f in cand[L][1]:
+            nl = w.new_local(f["ty"], name=("%s.%s" % (name, f["name"])) if name else None)
+            if w.locals[L].get("user"):
+                w.locals[nl]["user"] = True
+            fl[L].append(nl)
+
+    def fix(pl):
+        if pl["l"] in fl and pl["p"] and isinstance(pl["p"][0], dict) and "f" in pl["p"][0]:
+            k = pl["p"][0]["f"]
+            pl["l"], pl["p"] = fl[pl["l"]][k], pl["p"][1:]
+        elif pl["l"] in alias_of and alias_of[pl["l"]] in fl and len(pl["p"]) >= 2 and pl["p"][0] == "*":
+            k = pl["p"][1]["f"]
+            pl["l"], pl["p"] = fl[alias_of[pl["l"]]][k], pl["p"][2:]
+    for blk in w.blocks:
+        if blk.get("dead"):
+            continue
+        new_stmts = []
+        for s_ in blk["stmts"]:
+            if s_["k"] in ("live", "dead") and (s_.get("l") in fl or alias_of.get(s_.get("l")) in fl):
+                continue
+            if s_["k"] == "assign" and not s_["lhs"]["p"] and alias_of.get(s_["lhs"]["l"]) in fl:
+                continue
+            if s_["k"] == "assign" and s_["lhs"]["l"] in fl and not s_["lhs"]["p"]:
+                L = s_["lhs"]["l"]
+                if s_["rv"]["k"] == "agg":
+                    for k, o in enumerate(s_["rv"]["ops"]):
+                        pls = []
+                        _places(o, pls)
+                        for pl in pls:
+                            fix(pl)
+                        new_stmts.append({"k": "assign", "lhs": {"l": fl[L][k], "p": []}, "rv": {"k": "use", "op": o}, "span": s_["span"]})
+                else:
+                    kind = "move" if "move" in s_["rv"]["op"] else "copy"
+                    Y = s_["rv"]["op"][kind]["l"]
+                    for k in range(len(fl[L])):
+                        new_stmts.append({"k": "assign", "lhs": {"l": fl[L][k], "p": []}, "rv": {"k": "use", "op": {kind: {"l": fl[Y][k], "p": []}}}, "span": s_["span"]})
+                continue
+            pls = []
+            _places(s_, pls)
+            for pl in pls:
+                fix(pl)
+            new_stmts.append(s_)
+        blk["stmts"] = new_stmts
+        pls = []
+        _places(blk["term"], pls)
+        for pl in pls:
+            fix(pl)
+    return True
 
 
 def _neutralise_dead(w):
@@ -527,12 +1090,19 @@ def _inline_body(facts, body, policy="full"):
             ch = True
         if _expand_sync(facts, w, stack, depth, MAX_TOTAL, policy):
             ch = True
+        if _expand_closure_calls(facts, w, stack, MAX_TOTAL):
+            ch = True
+        if _expand_fnitem_calls(facts, w):
+            ch = True
+        if _expand_combinators(facts, w, stack, MAX_TOTAL):
+            ch = True
         if not ch:
             break
         any_change = True
     if not any_change:
         return body
     _neutralise_dead(w)
+    _sroa(facts, w)
     return _mk_body(body, w)
 
 
